@@ -17,7 +17,7 @@ func init() {
 		Explanation: "Sibling cross-check of the two store drivers: for every method of store.Store a summary is computed from each driver's SSA — the abstract key spaces {node, peers, account, balance, trial, nonce} it reads, writes and deletes " +
 			"(memory fields and badger key prefixes mapped by a frozen six-line table), the Balance/Node fields it assigns before writing, and the store sentinel errors it can return — and the summaries must be equal (effects-agree, errors-agree); " +
 			"the documented sentinels must be present and ErrUnregisteredNode must be decided by a miss in the node space; re-registering a node keeps its tracked peers in the memory driver as in the persistent one; " +
-			"(fresh-decode) every gob decode target of struct type in the persistent driver is a zero value when decoded into (gob omits zero fields, a reused target leaks the previous record). Round 2: no success return ahead of every store read in the methods that must report unregistered nodes; setnode-keeps-peers for both drivers; accesses made by transaction helpers are attributed to their call site. Round 4: decode helpers (functions decoding into a caller-supplied target without reset) are decode sites at their call sites and loopItem must reset its target before each decode; (miss-distinguished) the key spaces whose miss the persistent driver answers with a sentinel are looked up comma-ok in the memory driver's method; (sweep-agree) every successful UpdateNodePeers of either driver passes the expiry sweep over the tracked peers.",
+			"(fresh-decode) every gob decode target of struct type in the persistent driver is a zero value when decoded into (gob omits zero fields, a reused target leaks the previous record). Round 2: no success return ahead of every store read in the methods that must report unregistered nodes; setnode-keeps-peers for both drivers; accesses made by transaction helpers are attributed to their call site. Round 4: decode helpers (functions decoding into a caller-supplied target without reset) are decode sites at their call sites and loopItem must reset its target before each decode; (miss-distinguished) the key spaces whose miss the persistent driver answers with a sentinel are looked up comma-ok in the memory driver's method; (sweep-agree) every successful UpdateNodePeers of either driver passes the expiry sweep over the tracked peers. Round 5: (aux-index) inverse indexes verified or reported; (key-spelling); (driver-filters) shared with C08; retry closures.",
 		NotDecided: []string{"not decided: equality of returned values on arbitrary operation sequences (needs execution against a model); ordering/shuffling of ActiveHosts results"},
 		Exhaustive: true,
 	}
@@ -291,6 +291,17 @@ func runC12(p *an.Prog, r *an.Run, tier string) {
 		}
 	}
 
+	// ---- driver-filters (shared with C08): both drivers fence the host query by the same canonical predicates — host
+	// flag, kind unless the query is empty, LastSeen strictly after now-ExpireInterval compared as time.Time (not in a
+	// coarser unit on one side), limit — so a host on the boundary is not active in one driver and expired in the other
+	if exp, ok := p.PkgConstInt("pool/store", "ExpireInterval"); ok {
+		for _, d := range []*types.Named{mem, bad} {
+			if m := p.MethodOf(d, "ActiveHosts"); m != nil {
+				checkActiveHosts(p, r, d, m, exp)
+			}
+		}
+	}
+
 	// ---- limit-agree: both drivers treat limit > 0 as a cap and 0 as unlimited
 	for _, d := range []*types.Named{mem, bad} {
 		m := p.MethodOf(d, "ActiveHosts")
@@ -317,6 +328,7 @@ func runC12(p *an.Prog, r *an.Run, tier string) {
 
 	// ---- inverse indexes beside the contract's maps (auxindex.go)
 	checkAuxIndexes(p, r)
+	checkRetryClosures(p, r)
 	checkKeyOperandTypes(p, r)
 
 	// ---- SetNode keeps peers
